@@ -433,9 +433,15 @@ func (m *Manager) FlushMemTables() error {
 	// Track operation
 	m.stats.TrackOperation(stats.OpFlush)
 
+	// Writers append to the list of immutable MemTables while holding the
+	// storage lock, so take a snapshot of it under that lock
+	m.mu.RLock()
+	pending := append([]*memtable.MemTable(nil), m.immutableMTs...)
+	m.mu.RUnlock()
+
 	verifhook.Point("storage.flush.begin")
 	// If no immutable MemTables, flush the active one if needed
-	if len(m.immutableMTs) == 0 {
+	if len(pending) == 0 {
 		tables := m.memTablePool.GetMemTables()
 		if len(tables) > 0 && tables[0].ApproximateSize() > 0 {
 			// In testing, we might want to force flush the active table too
@@ -464,7 +470,7 @@ func (m *Manager) FlushMemTables() error {
 
 	verifhook.Point("storage.flush.after_rotate")
 	// Flush each immutable MemTable
-	for i, imMem := range m.immutableMTs {
+	for i, imMem := range pending {
 		if err := m.flushMemTable(imMem); err != nil {
 			m.stats.TrackError("memtable_flush_error")
 			return fmt.Errorf("failed to flush MemTable %d: %w", i, err)
@@ -472,8 +478,11 @@ func (m *Manager) FlushMemTables() error {
 	}
 
 	verifhook.Point("storage.flush.after_tables")
-	// Clear the immutable list - the MemTablePool manages reuse
-	m.immutableMTs = m.immutableMTs[:0]
+	// Remove the flushed tables from the list - the MemTablePool manages reuse.
+	// Tables that writers appended in the meantime stay for the next flush.
+	m.mu.Lock()
+	m.immutableMTs = append([]*memtable.MemTable(nil), m.immutableMTs[len(pending):]...)
+	m.mu.Unlock()
 
 	// Track flush count
 	m.stats.TrackFlush()
